@@ -71,7 +71,11 @@ static int reb_simulation_add_local_store(struct reb_simulation* const r, struct
             reb_simulation_error(r,"Cannot add particle outside of simulation box.");
             return 0;
         }
-		reb_tree_add_particle_to_tree(r, r->N);
+		if (reb_tree_add_particle_to_tree(r, r->N)==0){
+			// Refused by the tree (identical coordinates, error already reported): the particle must not
+			// become part of the simulation, otherwise it is in particles[] but in no leaf.
+			return 0;
+		}
 	}
 	(r->N)++;
 	return 1;
